@@ -417,6 +417,16 @@ pub fn run(opts: &Opts) -> i32 {
             scs.push(Sc10::new(lay.clone(), parties.clone(), true, false));
         }
     }
+    // two other clients: both of their versions can be committed between two requests of a cleanup
+    for lay in layouts(2, 1) {
+        if lay.orphan != Orphan::None && q {
+            continue;
+        }
+        if lay.len > 0 {
+            scs.push(Sc10::new(lay.clone(), vec![Party::Cleanup, Party::Add, Party::Add], false, false));
+        }
+        scs.push(Sc10::new(lay, vec![Party::AddCleanup, Party::Add, Party::Add], false, false));
+    }
     if !q {
         for lay in layouts(3, 2) {
             for parties in &combos[..4] {
@@ -429,7 +439,7 @@ pub fn run(opts: &Opts) -> i32 {
         for lay in layouts(2, 1) {
             scs.push(Sc10::new(lay.clone(), vec![Party::AddCleanup, Party::Add, Party::AddSnap], false, false));
             if lay.len > 0 {
-                scs.push(Sc10::new(lay, vec![Party::Cleanup, Party::Add, Party::Add], false, false));
+                scs.push(Sc10::new(lay, vec![Party::Cleanup, Party::AddSnap, Party::Add], false, false));
             }
         }
     }
